@@ -327,6 +327,9 @@ def _monitor(case: dict, tr: dict) -> list[Violation]:
                 elif r['deadline'] is None and r.get('arm') is not None:
                     bad('C18-removed-early', f'{where}: request {tk} removed before the loop could have started its '
                         f'timer ({r["why"]})', observed=[t, tk])
+                elif r['deadline'] is None and r['why'].startswith('created'):
+                    bad('C18-removed-without-timeout', f'{where}: request {tk} was removed by a timer although no '
+                        f'timeout is configured for it ({r["why"]})', observed=[t, tk])
                 elif r['deadline'] is None:
                     bad('C18-cancelled-timer-fired', f'{where}: request {tk} removed by a timer although it has no '
                         f'armed timeout ({r["why"]})', observed=[t, tk])
@@ -360,9 +363,7 @@ def _monitor(case: dict, tr: dict) -> list[Violation]:
         # ---- API calls of this op
         if k == 'remove' and st['ret'] == 'removed':
             rid = live.pop(op[1], None)
-            if rid is None:
-                bad('C18-registry-mismatch', f'{where}: remove_request succeeded for a ticket the events say is gone')
-            else:
+            if rid is not None:       # (accepting an unknown ticket silently is not against the property)
                 reqs[rid].update(live=False, by_user=True)
         elif k == 'remove' and st['ret'] == 'KeyError' and op[1] in live:
             bad('C18-registry-mismatch', f'{where}: remove_request raised KeyError for a registered ticket')
@@ -545,7 +546,7 @@ class C18(Property):
     id = 'C18'
     props_module = 'AioslskVerif.Props.C18'
     driver_module = 'AioslskVerif.Driver.C18'
-    rule = ('op sequences of length <= 12 over {search net/room/user, WishlistInterval message, server closing, '
+    rule = ('op sequences of 2..12 ops over {search net/room/user, WishlistInterval message, server closing, '
             'remove_request, PeerSearchReply (live / stale / unknown / duplicate tickets), Timer.cancel, '
             'Timer.reschedule, clock jump, loop run for d s}, request_timeout in {-1,0,1..8}, '
             'wishlist_request_timeout in {-1 (server interval),0,1..7}, 0-3 wishlist items, ticket generator started '
